@@ -372,6 +372,9 @@ class FakeWS:
         self.h.world.ws_client_send(self.conn, data)
 
     def send(self, payload):
+        # websocket-client: send() writes a TEXT frame whatever it is given
+        if not isinstance(payload, str):
+            payload = bytes(payload).decode('utf-8', 'replace')
         self._send(payload)
 
     def send_binary(self, payload):
@@ -396,6 +399,8 @@ class FakeWS:
                 raise WebSocketConnectionClosedException('closed')
             if len(c.sent) > self.cursor:
                 frame = c.sent[self.cursor][1]
+                if isinstance(frame, (bytearray, memoryview)):
+                    frame = bytes(frame)        # what arrives from a network is bytes
                 self.cursor += 1
                 f = self.h.faults.next('ws-recv')
                 if f:
@@ -708,6 +713,8 @@ class FakeAioWS:
             len(c.sent) > self.cursor or c.server_closed or c.done)))
         if len(c.sent) > self.cursor:
             frame = c.sent[self.cursor][1]
+            if isinstance(frame, (bytearray, memoryview)):
+                frame = bytes(frame)            # what arrives from a network is bytes
             self.cursor += 1
             f = self.h.faults.next('ws-recv')
             if f:
